@@ -305,7 +305,23 @@ fn exercise(bytes: &[u8], c: &Case, st: &mut Stats, phase: &'static str) -> Resu
     let sup: Vec<AttributeType> = c.supported.iter().map(|t| AttributeType::new(*t)).collect();
     let req: Vec<AttributeType> = c.required.iter().map(|t| AttributeType::new(*t)).collect();
     let all_present: Vec<AttributeType> = items.iter().map(|a| a.get_type()).collect();
-    for (s, r) in [(&sup, &req), (&vec![], &vec![]), (&all_present, &req), (&all_present, &vec![])] {
+    // long lists: the types present in the message placed behind / in front of k types that are not
+    // (k next to the word sizes and small powers of two a bit set or an inline table would have)
+    let k = [0usize, 31, 32, 63, 64, 65, 127, 128, 129, 255, 256, 300][(digest(&(bytes.len(), c.supported.len(), c.required.len())) % 12) as usize];
+    let fillers: Vec<AttributeType> = (0..k).map(|i| AttributeType::new(0x7000 + i as u16)).collect();
+    let filler_then_present: Vec<AttributeType> = fillers.iter().chain(all_present.iter()).cloned().collect();
+    let present_then_filler: Vec<AttributeType> = all_present.iter().chain(fillers.iter()).cloned().collect();
+    let filler_then_req: Vec<AttributeType> = fillers.iter().chain(req.iter()).cloned().collect();
+    for (s, r) in [
+        (&sup, &req),
+        (&vec![], &vec![]),
+        (&all_present, &req),
+        (&all_present, &vec![]),
+        (&all_present, &filler_then_present),
+        (&filler_then_present, &present_then_filler),
+        (&sup, &filler_then_req),
+        (&filler_then_present, &filler_then_req),
+    ] {
         let res = guard(|| Message::check_attribute_types(&msg, s, r).map(|b| b.build()));
         match res {
             Ok(Some(out)) => {
